@@ -102,12 +102,32 @@ pub fn run(ctx: &Ctx, rep: &mut Report) {
                         if rng.chance(1, 3) {
                             split_list.clear();
                         }
-                        let r = guard(|| live.list.split_into(sm, idx, &mut split_list).map(|_| observe(&split_list).len()));
+                        let before_len = split_list.len();
+                        let r = guard(|| {
+                            let flag = live.list.split_into(sm, idx, &mut split_list)?;
+                            let reused: Vec<(usize, usize, u32, [String; 10])> = (before_len..split_list.len()).map(|k| { let m = split_list.get(k); (m.begin(), m.end(), m.word_id().as_raw(), field_values(m.get_word_info())) }).collect();
+                            let mut fresh_list = MorphemeList::empty(&world.dict);
+                            let flag2 = live.list.split_into(sm, idx, &mut fresh_list)?;
+                            let fresh: Vec<(usize, usize, u32, [String; 10])> = (0..fresh_list.len()).map(|k| { let m = fresh_list.get(k); (m.begin(), m.end(), m.word_id().as_raw(), field_values(m.get_word_info())) }).collect();
+                            Ok::<_, sudachi::error::SudachiError>((flag, flag2, reused, fresh))
+                        });
                         history.push(json!({"op": "split_into", "index": idx, "mode": mode_name(sm)}));
-                        if let Err(p) = r {
-                            rep.skipped_panic(&p, json!({"history": history}));
-                            ok_history = false;
-                            break;
+                        match r {
+                            Err(p) => {
+                                rep.skipped_panic(&p, json!({"history": history}));
+                                ok_history = false;
+                                break;
+                            }
+                            Ok(Ok((f1, f2, a, b))) => {
+                                rep.count("splits_into_reused_list_compared", 1);
+                                let same = f1 == f2 && a.len() == b.len() && a.iter().zip(b.iter()).all(|(x, y)| x.0 == y.0 && x.1 == y.1 && x.2 == y.2 && (0..10).all(|f| bits & (1 << f) == 0 || x.3[f] == y.3[f]));
+                                if !same {
+                                    rep.violation("history_dependence", "split_into", &format!("splitting morpheme {} into a reused list gives {:?}, into a fresh list {:?}", idx, a.iter().map(|x| (x.0, x.1, x.2, x.3[3].clone(), x.3[5].clone())).collect::<Vec<_>>(), b.iter().map(|x| (x.0, x.1, x.2, x.3[3].clone(), x.3[5].clone())).collect::<Vec<_>>()), "", json!({"world_index": wi, "history": history, "requested_bits": bits, "world": world.describe(true)}));
+                                    ok_history = false;
+                                    break;
+                                }
+                            }
+                            Ok(Err(_)) => {}
                         }
                     }
                     _ => {
